@@ -61,3 +61,49 @@ def floatOps : Ops Float :=
     w := fun age => Float.pow 0.1 (age / 15.0), ofNat := Float.ofNat }
 
 end IndicatifModel.Estimator
+
+/-! ## The estimator inside a bar: which public calls record a sample, and the derived getters
+(`ProgressState::{per_sec, eta, duration, elapsed}`, `BarState::{reset, tick, update}`,
+`ProgressBar::{inc, set_position}` with the position gate of `AtomicPosition::allow`). -/
+namespace IndicatifModel.Estimator
+
+structure EW (α : Type) where
+  est : Est α
+  pos : Nat := 0
+  len : Option Nat := none
+  started : Nat            -- `ProgressState::started`
+  gateStart : Nat          -- `AtomicPosition::start`
+  gateCap : Nat := 10
+  gatePrev : Nat := 0      -- ns after `gateStart`
+  finished : Bool := false
+
+inductive EOp where
+  | upd (p : Nat)          -- `update(|s| s.set_pos(p))`: always ticks, hence records
+  | inc (d : Nat) | setPos (p : Nat)     -- gated by `AtomicPosition::allow`
+  | resetEta | resetElapsed | reset | finish | setLen (l : Option Nat)
+deriving Repr
+
+def U64 : Nat := 2 ^ 64
+
+/-- `AtomicPosition::allow` (interval 1 ms, burst 10), times relative to `gateStart` -/
+def gateAllow {α : Type} (w : EW α) (now : Nat) : Bool × EW α :=
+  if now < w.gateStart then (false, w) else
+  let elapsed := now - w.gateStart
+  let diff := elapsed - w.gatePrev
+  if w.gateCap = 0 ∧ diff < 1000000 then (false, w) else
+  (true, { w with gateCap := min 10 (w.gateCap + diff / 1000000 - 1), gatePrev := elapsed - diff % 1000000 })
+
+def tick {α : Type} (o : Ops α) (w : EW α) (now : Nat) : EW α := { w with est := record o w.est w.pos now }
+
+def step {α : Type} (o : Ops α) (w : EW α) (now : Nat) : EOp → EW α
+  | .upd p => tick o { w with pos := p } now
+  | .inc d => let w := { w with pos := (w.pos + d) % U64 }; let (ok, w) := gateAllow w now; if ok then tick o w now else w
+  | .setPos p => let w := { w with pos := p }; let (ok, w) := gateAllow w now; if ok then tick o w now else w
+  | .resetEta => { w with est := reset o { w.est with prevSteps := w.pos } now }
+  | .resetElapsed => { w with est := reset o { w.est with prevSteps := w.pos } now, started := now }
+  | .reset => { w with est := reset o { w.est with prevSteps := w.pos } now, started := now, pos := 0,
+                       gatePrev := now - w.gateStart, finished := false }
+  | .finish => { w with finished := true, pos := w.len.getD w.pos }
+  | .setLen l => tick o { w with len := l } now
+
+end IndicatifModel.Estimator
